@@ -74,8 +74,34 @@ def storeStep (st : StoreState) (ws : List String) : StoreState × String × Str
     | none => same st "bad-op"
   | ["rotate"] => same st "ok"
   | ["flush"] => same st "ok"
+  | ["flushimm"] => same st "ok"
   | ["compact"] => same st "ok"
   | ["reopen"] => same { st with readers := [] } "ok"
-  | _ => same st "bad-op"
+  | ["scanall"] => same st (scanStr st.cur)
+  | ["crash"] => same st s!"img={scanStr st.cur} re=ok"
+  | op :: writes =>
+    -- `<op>@<i>`: the operation runs to completion; a crash image is taken at its i-th yield point
+    match op.splitOn "@" with
+    | ["txn", _] =>
+      let apply := writes.foldl (fun (acc : Option (List (Key × Val))) w =>
+        match acc, w.splitOn "=" with
+        | some m, [k, v] =>
+          match bytesOfHex? k with
+          | some k =>
+            if v == "DEL" || v == "SDEL" then some (mapErase m k)
+            else (bytesOfHex? v).map (fun v => mapInsert m k v)
+          | none => none
+        | _, _ => none) (some st.cur)
+      match apply with
+      | some m =>
+        -- all-or-nothing: the image holds the state before or after this transaction
+        let out := s!"img={scanStr st.cur}|{scanStr m} re=ok"
+        ({ st with cur := m }, out, out)
+      | none => same st "bad-op"
+    | [o, _] =>
+      if o == "flush" || o == "compact" || o == "rotate" then same st s!"img={scanStr st.cur} re=ok"
+      else same st "bad-op"
+    | _ => same st "bad-op"
+  | [] => same st "bad-op"
 
 def storeDriver : LineDriver := { σ := StoreState, init := {}, step := storeStep }
